@@ -363,13 +363,148 @@ pub mod io {
         }
     }
 
+    /// `read`: whatever is available, at most `buf.len()` bytes; 0 at end of stream.
+    pub struct ReadSome<'a> {
+        s: &'a mut TcpStream,
+        buf: &'a mut [u8],
+    }
+
+    impl<'a> Future for ReadSome<'a> {
+        type Output = std::io::Result<usize>;
+        fn poll(self: Pin<&mut Self>, cx: &mut Context<'_>) -> Poll<Self::Output> {
+            let me = self.get_mut();
+            let mut p = me.s.rx.lock().unwrap();
+            let mut n = 0;
+            while n < me.buf.len() {
+                match p.buf.pop_front() {
+                    Some(b) => {
+                        me.buf[n] = b;
+                        n += 1;
+                    }
+                    None => break,
+                }
+            }
+            if n > 0 || me.buf.is_empty() || p.closed {
+                return Poll::Ready(Ok(n));
+            }
+            p.waker = Some(cx.waker().clone());
+            Poll::Pending
+        }
+    }
+
+    /// Fixed-width integer reads (`read_u8`, `read_u32`, `read_u32_le`, ...): read_exact into a small buffer.
+    pub struct ReadInt<'a, const N: usize> {
+        s: &'a mut TcpStream,
+        buf: [u8; N],
+        filled: usize,
+    }
+
+    impl<'a, const N: usize> ReadInt<'a, N> {
+        fn poll_fill(&mut self, cx: &mut Context<'_>) -> Poll<std::io::Result<[u8; N]>> {
+            let mut p = self.s.rx.lock().unwrap();
+            while self.filled < N {
+                match p.buf.pop_front() {
+                    Some(b) => {
+                        self.buf[self.filled] = b;
+                        self.filled += 1;
+                    }
+                    None => break,
+                }
+            }
+            if self.filled == N {
+                return Poll::Ready(Ok(self.buf));
+            }
+            if p.closed {
+                return Poll::Ready(Err(std::io::Error::new(std::io::ErrorKind::UnexpectedEof, "early eof")));
+            }
+            p.waker = Some(cx.waker().clone());
+            Poll::Pending
+        }
+    }
+
+    pub struct MapInt<'a, const N: usize, T> {
+        inner: ReadInt<'a, N>,
+        f: fn([u8; N]) -> T,
+    }
+
+    impl<'a, const N: usize, T> Future for MapInt<'a, N, T> {
+        type Output = std::io::Result<T>;
+        fn poll(self: Pin<&mut Self>, cx: &mut Context<'_>) -> Poll<Self::Output> {
+            let me = self.get_mut();
+            match me.inner.poll_fill(cx) {
+                Poll::Ready(Ok(b)) => Poll::Ready(Ok((me.f)(b))),
+                Poll::Ready(Err(e)) => Poll::Ready(Err(e)),
+                Poll::Pending => Poll::Pending,
+            }
+        }
+    }
+
+    pub struct ReadToEnd<'a> {
+        s: &'a mut TcpStream,
+        out: &'a mut Vec<u8>,
+        n: usize,
+    }
+
+    impl<'a> Future for ReadToEnd<'a> {
+        type Output = std::io::Result<usize>;
+        fn poll(self: Pin<&mut Self>, cx: &mut Context<'_>) -> Poll<Self::Output> {
+            let me = self.get_mut();
+            let mut p = me.s.rx.lock().unwrap();
+            while let Some(b) = p.buf.pop_front() {
+                me.out.push(b);
+                me.n += 1;
+            }
+            if p.closed {
+                return Poll::Ready(Ok(me.n));
+            }
+            p.waker = Some(cx.waker().clone());
+            Poll::Pending
+        }
+    }
+
     pub trait AsyncReadExt {
         fn read_exact<'a>(&'a mut self, buf: &'a mut [u8]) -> ReadExact<'a>;
+        fn read<'a>(&'a mut self, buf: &'a mut [u8]) -> ReadSome<'a>;
+        fn read_to_end<'a>(&'a mut self, out: &'a mut Vec<u8>) -> ReadToEnd<'a>;
+        fn read_u8<'a>(&'a mut self) -> MapInt<'a, 1, u8>;
+        fn read_u16<'a>(&'a mut self) -> MapInt<'a, 2, u16>;
+        fn read_u16_le<'a>(&'a mut self) -> MapInt<'a, 2, u16>;
+        fn read_u32<'a>(&'a mut self) -> MapInt<'a, 4, u32>;
+        fn read_u32_le<'a>(&'a mut self) -> MapInt<'a, 4, u32>;
+        fn read_u64<'a>(&'a mut self) -> MapInt<'a, 8, u64>;
+        fn read_u64_le<'a>(&'a mut self) -> MapInt<'a, 8, u64>;
     }
 
     impl AsyncReadExt for TcpStream {
         fn read_exact<'a>(&'a mut self, buf: &'a mut [u8]) -> ReadExact<'a> {
             ReadExact { s: self, buf, filled: 0 }
+        }
+        fn read<'a>(&'a mut self, buf: &'a mut [u8]) -> ReadSome<'a> {
+            ReadSome { s: self, buf }
+        }
+        fn read_to_end<'a>(&'a mut self, out: &'a mut Vec<u8>) -> ReadToEnd<'a> {
+            ReadToEnd { s: self, out, n: 0 }
+        }
+        fn read_u8<'a>(&'a mut self) -> MapInt<'a, 1, u8> {
+            MapInt { inner: ReadInt { s: self, buf: [0; 1], filled: 0 }, f: |b| b[0] }
+        }
+        fn read_u16<'a>(&'a mut self) -> MapInt<'a, 2, u16> {
+            MapInt { inner: ReadInt { s: self, buf: [0; 2], filled: 0 }, f: u16::from_be_bytes }
+        }
+        fn read_u16_le<'a>(&'a mut self) -> MapInt<'a, 2, u16> {
+            MapInt { inner: ReadInt { s: self, buf: [0; 2], filled: 0 }, f: u16::from_le_bytes }
+        }
+        fn read_u32<'a>(&'a mut self) -> MapInt<'a, 4, u32> {
+            MapInt { inner: ReadInt { s: self, buf: [0; 4], filled: 0 }, f: u32::from_be_bytes }
+        }
+        fn read_u32_le<'a>(&'a mut self) -> MapInt<'a, 4, u32> {
+            MapInt { inner: ReadInt { s: self, buf: [0; 4], filled: 0 }, f: u32::from_le_bytes }
+        }
+        fn read_u64<'a>(&'a mut self) -> MapInt<'a, 8, u64> {
+            MapInt { inner: ReadInt { s: self, buf: [0; 8], filled: 0 }, f: u64::from_be_bytes }
+        }
+        fn read_u64_le<'a>(&'a mut self) -> MapInt<'a, 8, u64> {
+            MapInt { inner: ReadInt { s: self, buf: [0; 8], filled: 0 }, f: u64::from_le_bytes }
         }
     }
 
@@ -388,13 +523,104 @@ pub mod io {
         }
     }
 
+    /// `write`: the in-memory pipe takes everything at once.
+    pub struct WriteSome<'a> {
+        s: &'a mut TcpStream,
+        src: &'a [u8],
+    }
+
+    impl<'a> Future for WriteSome<'a> {
+        type Output = std::io::Result<usize>;
+        fn poll(self: Pin<&mut Self>, _cx: &mut Context<'_>) -> Poll<Self::Output> {
+            let me = self.get_mut();
+            let mut p = me.s.tx.lock().unwrap();
+            p.buf.extend(me.src.iter().copied());
+            Poll::Ready(Ok(me.src.len()))
+        }
+    }
+
+    pub struct WriteOwned<'a> {
+        s: &'a mut TcpStream,
+        src: Vec<u8>,
+    }
+
+    impl<'a> Future for WriteOwned<'a> {
+        type Output = std::io::Result<()>;
+        fn poll(self: Pin<&mut Self>, _cx: &mut Context<'_>) -> Poll<Self::Output> {
+            let me = self.get_mut();
+            let mut p = me.s.tx.lock().unwrap();
+            p.buf.extend(me.src.iter().copied());
+            Poll::Ready(Ok(()))
+        }
+    }
+
+    pub struct Done;
+
+    impl Future for Done {
+        type Output = std::io::Result<()>;
+        fn poll(self: Pin<&mut Self>, _cx: &mut Context<'_>) -> Poll<Self::Output> {
+            Poll::Ready(Ok(()))
+        }
+    }
+
+    pub struct Shutdown<'a> {
+        s: &'a mut TcpStream,
+    }
+
+    impl<'a> Future for Shutdown<'a> {
+        type Output = std::io::Result<()>;
+        fn poll(self: Pin<&mut Self>, _cx: &mut Context<'_>) -> Poll<Self::Output> {
+            let w = {
+                let mut p = self.s.tx.lock().unwrap();
+                p.closed = true;
+                p.waker.take()
+            };
+            if let Some(w) = w {
+                w.wake();
+            }
+            Poll::Ready(Ok(()))
+        }
+    }
+
     pub trait AsyncWriteExt {
         fn write_all<'a>(&'a mut self, src: &'a [u8]) -> WriteAll<'a>;
+        fn write<'a>(&'a mut self, src: &'a [u8]) -> WriteSome<'a>;
+        fn write_u8<'a>(&'a mut self, v: u8) -> WriteOwned<'a>;
+        fn write_u32<'a>(&'a mut self, v: u32) -> WriteOwned<'a>;
+        fn write_u32_le<'a>(&'a mut self, v: u32) -> WriteOwned<'a>;
+        fn write_u64<'a>(&'a mut self, v: u64) -> WriteOwned<'a>;
+        fn write_u64_le<'a>(&'a mut self, v: u64) -> WriteOwned<'a>;
+        fn flush(&mut self) -> Done;
+        fn shutdown<'a>(&'a mut self) -> Shutdown<'a>;
     }
 
     impl AsyncWriteExt for TcpStream {
         fn write_all<'a>(&'a mut self, src: &'a [u8]) -> WriteAll<'a> {
             WriteAll { s: self, src }
+        }
+        fn write<'a>(&'a mut self, src: &'a [u8]) -> WriteSome<'a> {
+            WriteSome { s: self, src }
+        }
+        fn write_u8<'a>(&'a mut self, v: u8) -> WriteOwned<'a> {
+            WriteOwned { s: self, src: vec![v] }
+        }
+        fn write_u32<'a>(&'a mut self, v: u32) -> WriteOwned<'a> {
+            WriteOwned { s: self, src: v.to_be_bytes().to_vec() }
+        }
+        fn write_u32_le<'a>(&'a mut self, v: u32) -> WriteOwned<'a> {
+            WriteOwned { s: self, src: v.to_le_bytes().to_vec() }
+        }
+        fn write_u64<'a>(&'a mut self, v: u64) -> WriteOwned<'a> {
+            WriteOwned { s: self, src: v.to_be_bytes().to_vec() }
+        }
+        fn write_u64_le<'a>(&'a mut self, v: u64) -> WriteOwned<'a> {
+            WriteOwned { s: self, src: v.to_le_bytes().to_vec() }
+        }
+        fn flush(&mut self) -> Done {
+            Done
+        }
+        fn shutdown<'a>(&'a mut self) -> Shutdown<'a> {
+            Shutdown { s: self }
         }
     }
 }
